@@ -527,7 +527,10 @@ def run_check(pid, tier, seed):
     ev['wall_s'] = round(time.time() - t0, 2)
     os.makedirs(os.path.join(ROOT, 'evidence'), exist_ok=True)
     json.dump(ev, open(os.path.join(ROOT, 'evidence', pid + '.json'), 'w'), indent=1, default=repr)
+    seen_v = set()
     for path, suffix in violations:
+        if path in seen_v: continue
+        seen_v.add(path)
         print('VIOLATION property=%s replay=%s%s' % (pid, path, suffix), flush=True)
     log('%s %s: obligations %d/%d, cases %d (model agreed on %d), known findings %s, %.1fs' % (
         pid, tier, cov['discharged'], cov['obligations'], cov['evaluations'], cov['traces_validated_against_impl'], reproduced, ev['wall_s']))
